@@ -289,6 +289,18 @@ def make_obligations(prop, module, tier, shapes_quick, shapes_thorough, kq, kt, 
                     imports=f'from vp.harness import sched\nsched.prepare({shape!r}, **{wkw or {}!r})',
                 )
             )
+        if prop in ('C03', 'C05') and len(w.order) > 1 and '@' not in shape:
+            # directed family: a dependent is executing when its ancestor is requested, runs and reports
+            # (late replies after an ancestor's outcome), then 2 free events
+            al = alphabet(w, prop)
+            last, first_ = w.order[-1], w.order[0]
+            tl = '__all__' if w.kind[last] == 'analysis' else 'T1'
+            pref = [al.index(('REQ', last, tl)), al.index(('DISPATCH', 2)), al.index(('REQ', first_, 'T1')), al.index(('DISPATCH', 2))]
+            fr = ['f0', 'f1'] if tier == 'quick' else ['f0', 'f1', 'f2']
+            call = f"{{'shape': {shape!r}, 'k': {len(pref) + len(fr)}, 'sel': [{', '.join(map(str, pref))}, {', '.join(fr)}]" + (", 'drain': dr" if drain else '') + '}'
+            out.append(ob.make(f'{shape}-directed-late-reply', shape, ref, ', '.join(f'{v}: int' for v in fr + (['dr'] if drain else [])),
+                               [' and '.join([f'0 <= {v} < {n}' for v in fr] + (['0 <= dr < 3'] if drain else []))], call, timeout=600 if tier == 'quick' else 3000,
+                               imports=f'from vp.harness import sched\nsched.prepare({shape!r}, **{wkw or {}!r})'))
         allv = [f'e{i}' for i in range(kk)]
         tsig = ', '.join(f'{v}: int' for v in allv + (['dr'] if drain else []))
         tpre = [' and '.join([f'0 <= {v} < {n}' for v in allv] + (['0 <= dr < 3'] if drain else []))]
